@@ -87,7 +87,7 @@ Proof.
     rewrite pcell_nil_cons. fold cL. rewrite blk_clamp. cbn [fst].
     destruct rb' as [|y' rb'']; cbn [length is_nil].
     + change (Z.of_nat 1 =? 1) with true. cbv iota. change (Z.of_nat 1 - 1) with 0 in Eb.
-      repeat (first
+      timeout 300 repeat (first
         [ rewrite (go_index_some blocks i zero_block) by (first [lia | exact Hcur])
         | rewrite (go_set_ok blocks i) by lia
         | rewrite (go_index_set_other blocks i (i - 1)) by lia
@@ -101,7 +101,7 @@ Proof.
       cbn [imp_align_block_with_score imp_align_block_with_step imp_align_block_score imp_align_block_step zero_block].
       unfold opn, Gap. match goal with |- (if ?c then _ else _) = _ => destruct c end; reflexivity.
     + replace (Z.of_nat (S (S (length rb''))) =? 1) with false by lia.
-      repeat (first
+      timeout 300 repeat (first
         [ rewrite (go_index_some blocks i zero_block) by (first [lia | exact Hcur])
         | rewrite (go_set_ok blocks i) by lia
         | rewrite (go_index_set_other blocks i (i - 1)) by lia
@@ -129,7 +129,7 @@ Proof.
     rewrite pcell_cons_nil. fold cU. rewrite blk_clamp. cbn [fst].
     destruct ra' as [|x' ra'']; cbn [length is_nil].
     + change (Z.of_nat 1 =? 1) with true. cbv iota. change (Z.of_nat 1 - 1) with 0 in Ea.
-      repeat (first
+      timeout 300 repeat (first
         [ rewrite (go_index_some blocks i zero_block) by (first [lia | exact Hcur])
         | rewrite (go_set_ok blocks i) by lia
         | rewrite (go_index_set_other blocks i (i - bn)) by lia
@@ -143,7 +143,7 @@ Proof.
       cbn [imp_align_block_with_score imp_align_block_with_step imp_align_block_score imp_align_block_step zero_block].
       unfold opn, Gap. match goal with |- (if ?c then _ else _) = _ => destruct c end; reflexivity.
     + replace (Z.of_nat (S (S (length ra''))) =? 1) with false by lia.
-      repeat (first
+      timeout 300 repeat (first
         [ rewrite (go_index_some blocks i zero_block) by (first [lia | exact Hcur])
         | rewrite (go_set_ok blocks i) by lia
         | rewrite (go_index_set_other blocks i (i - bn)) by lia
@@ -184,7 +184,7 @@ Proof.
     { intros S' k. rewrite (rev_split_nth b pb y rb' Hb).
       apply (go_index_mid (rev rb') y (rev pb)). unfold go_len. rewrite rev_length. lia. }
     unfold opn.
-    repeat (first
+    timeout 300 repeat (first
       [ rewrite (go_index_some blocks (i - bn - 1) (blk_of cD)) by (first [lia | exact Hdiag])
       | rewrite (go_index_some blocks (i - bn) (blk_of cU)) by (first [lia | exact Hup])
       | rewrite (go_index_some blocks (i - 1) (blk_of cL)) by (first [lia | exact Hleft])
@@ -291,8 +291,8 @@ Proof.
   rewrite (imp_argmax blocks Hne). cbn [go_call]. cbv zeta.
   unfold go_quot. destruct (Z.eqb_spec bn 0); [contradiction|].
   unfold go_make. cbn [Z.ltb Z.compare Z.to_nat repeat].
-  change (go_while fuel _ _ (fst (argmax blocks), [], fst (argmax blocks)))
-    with (go_while (R := list N * Z * Z) fuel tl_cond (tl_body (map blk_of blocks) bn) (fst (argmax blocks), map step_n (rev []), fst (argmax blocks))).
+  timeout 120 (change (go_while fuel _ _ (fst (argmax blocks), [], fst (argmax blocks)))
+    with (go_while (R := list N * Z * Z) fuel tl_cond (tl_body (map blk_of blocks) bn) (fst (argmax blocks), map step_n (rev []), fst (argmax blocks)))).
   destruct (tl_loop (R := list N * Z * Z) blocks bn _ fuel _ _ _ _ _ Ht Hf) as (i' & Hloop & Hi').
   rewrite Hloop. cbn [after]. cbv beta iota.
   replace (i' <? 0) with false by lia.
@@ -300,8 +300,8 @@ Proof.
   cbn [blk_of imp_align_block_score]. rewrite Hcs.
   destruct (snd (argmax blocks) =? 0); [reflexivity|].
   cbv zeta.
-  change (go_while fuel _ _ (0, map step_n (rev steps)))
-    with (go_while (R := list N * Z * Z) fuel rev_cond rev_body (0, map step_n (rev steps))).
+  timeout 120 (change (go_while fuel _ _ (0, map step_n (rev steps)))
+    with (go_while (R := list N * Z * Z) fuel rev_cond rev_body (0, map step_n (rev steps)))).
   destruct (rev_loop_all (R := list N * Z * Z) (map step_n (rev steps)) fuel) as (k & Hk).
   { rewrite map_length, rev_length. pose proof (trace_l_length _ _ _ _ _ _ _ _ Ht) as Hl. cbn [length] in Hl.
     assert (length steps / 2 <= length steps)%nat by (apply Nat.div_le_upper_bound; lia). lia. }
@@ -334,8 +334,8 @@ Proof.
   match goal with |- context [go_len (repeat ?z ?k)] => replace (go_len (repeat z k)) with (Z.of_nat k) by (unfold go_len; rewrite repeat_length; reflexivity) end.
   rewrite Nat2Z.id.
   change (Imp_align_block 0 0%N) with zero_block.
-  change (go_iter _ (zseq 0 _) (repeat zero_block _))
-    with (go_iter (local_body (R := list N * Z * Z * Z) a b m (bn_of b)) (zseq 0 (S (length a) * S (length b))) (repeat zero_block (S (length a) * S (length b)))).
+  timeout 120 (change (go_iter _ (zseq 0 _) (repeat zero_block _))
+    with (go_iter (local_body (R := list N * Z * Z * Z) a b m (bn_of b)) (zseq 0 (S (length a) * S (length b))) (repeat zero_block (S (length a) * S (length b))))).
   rewrite (local_fill w m a b Hag). cbn [after]. fold spec.
   change (go_len b + 1) with (bn_of b).
   assert (Ht' : trace_l (length spec) spec (bn_of b) (fst (argmax spec)) (fst (argmax spec)) [] = Ok (st, last))
